@@ -3,6 +3,7 @@ the round-trip observations (`amtrt`, `scrrt`) are answered from the Spec (the v
 import BV.Common.Hex
 import BV.Common.Sha256
 import BV.C15.Model
+import BV.C15.ModelV0
 import BV.C15.Secp
 namespace BV.C15.Driver
 open BV.Hex BV.C15 BV.C15.Spec
@@ -125,6 +126,15 @@ def handle : List String → String
       | .err => "err"
       | .panic => "panic"
     | none => "bad-op"
+  | ["unv0", h] => match hexToList? h with
+    | some b => match deserializeUtxoEntryV0 C b with
+      | .ok l => if l.isEmpty then "ok -" else "ok " ++ ";".intercalate (l.map (fun p => s!"{p.1}={showTxo p.2}"))
+      | .err => "err"
+      | .panic => "panic"
+    | none => "bad-op"
+  | ["opkey", hash, idx] => match hexToList? hash, idx.toNat? with
+    | some hash, some idx => if hash.length ≠ 32 then "bad-op" else listToHex (outpointKey hash idx)
+    | _, _ => "bad-op"
   | _ => "bad-op"
 
 end BV.C15.Driver
